@@ -601,7 +601,8 @@ pub fn run_c12(ctx: &mut Ctx) {
             ctx.case_begin(&json!({"i": i}));
         }
         let nwl = rng.pct(25);
-        match rng.below(8) {
+        let kind = rng.below(8);
+        crate::report::guarded(ctx, |ctx| match kind {
             0 => eval_labelset::<usize>(ctx, &mut rng, len),
             1 => eval_labelset::<String>(ctx, &mut rng, len),
             k if k % 2 == 0 => {
@@ -612,7 +613,7 @@ pub fn run_c12(ctx: &mut Ctx) {
                 let ops = gen_store_ops::<String>(&mut rng, len);
                 eval_store(ctx, &ops, nwl);
             }
-        }
+        });
     }
 }
 
@@ -1485,21 +1486,32 @@ fn eval_c14_framework(ctx: &mut Ctx, rng: &mut Rng) {
             Op::DelAtt(a, b) => Op::DelAtt(ident_label(*a), ident_label(*b)),
         })
         .collect();
-    let mut af: AAFramework<String> = AAFramework::new_with_argument_set(ArgumentSet::new_with_labels(&[]));
-    for op in ops.iter() {
-        match op {
-            Op::AddArg(l) => af.new_argument(l.clone()),
-            Op::DelArg(l) => {
-                let _ = af.remove_argument(l);
-            }
-            Op::AddAtt(a, b) => {
-                let _ = af.new_attack(a, b);
-            }
-            Op::DelAtt(a, b) => {
-                let _ = af.remove_attack(a, b);
+    let built = catch(|| {
+        let mut af: AAFramework<String> = AAFramework::new_with_argument_set(ArgumentSet::new_with_labels(&[]));
+        for op in ops.iter() {
+            match op {
+                Op::AddArg(l) => af.new_argument(l.clone()),
+                Op::DelArg(l) => {
+                    let _ = af.remove_argument(l);
+                }
+                Op::AddAtt(a, b) => {
+                    let _ = af.new_attack(a, b);
+                }
+                Op::DelAtt(a, b) => {
+                    let _ = af.remove_attack(a, b);
+                }
             }
         }
-    }
+        af
+    });
+    let af = match built {
+        Ok(af) => af,
+        Err(_) => {
+            // the store itself panicked: C12 reports that; nothing to write here
+            ctx.inconclusive("store-panicked-while-building-the-framework");
+            return;
+        }
+    };
     let case = json!({"kind": "framework", "ops": ops.iter().map(|o| o.to_json()).collect::<Vec<_>>()});
     ctx.eval();
     let short = rng.pct(30);
@@ -1676,11 +1688,14 @@ pub fn run_c14(ctx: &mut Ctx) {
             ctx.case_begin(&json!({"i": i}));
         }
         let mut rng = Rng::from_path(&[ctx.seed, 14, i]);
-        if rng.pct(50) {
-            eval_c14_framework(ctx, &mut rng);
-        } else {
-            eval_c14_answers(ctx, &mut rng);
-        }
+        let fw = rng.pct(50);
+        crate::report::guarded(ctx, |ctx| {
+            if fw {
+                eval_c14_framework(ctx, &mut rng);
+            } else {
+                eval_c14_answers(ctx, &mut rng);
+            }
+        });
     }
 }
 
@@ -1720,4 +1735,64 @@ pub fn replay_c14(ctx: &mut Ctx, case: &Value) -> Result<(), String> {
         return Ok(());
     }
     Err("only framework cases are replayable from file; extension cases print their labels in the detail".to_string())
+}
+
+// =============================================================================================
+// Miri entry point (pure-Rust paths only: the store and the two readers)
+// =============================================================================================
+
+/// Runs `n_hist` store histories and `n_inputs` reader inputs with the same oracles as C12/C13,
+/// without touching the file system (usable under Miri).  Returns (operations, inputs) or the
+/// first disagreement.
+pub fn miri_smoke(seed: u64, n_hist: u64, n_inputs: u64) -> Result<(u64, u64), String> {
+    let mut ops_done = 0u64;
+    for i in 0..n_hist {
+        let mut rng = Rng::from_path(&[seed, 0x12, i]);
+        let len = rng.range(5, 30);
+        let nwl = rng.pct(25);
+        if i % 2 == 0 {
+            let ops = gen_store_ops::<usize>(&mut rng, len);
+            if let Some((sig, d)) = judge_store(&ops, nwl, None) {
+                return Err(format!("{} {} {}", sig, d, store_case_json(&ops, nwl)));
+            }
+            ops_done += ops.len() as u64;
+        } else {
+            let ops = gen_store_ops::<String>(&mut rng, len);
+            if let Some((sig, d)) = judge_store(&ops, nwl, None) {
+                return Err(format!("{} {} {}", sig, d, store_case_json(&ops, nwl)));
+            }
+            ops_done += ops.len() as u64;
+        }
+    }
+    let mut inputs = 0u64;
+    for i in 0..n_inputs {
+        let mut rng = Rng::from_path(&[seed, 0x13, i]);
+        let iccma = rng.pct(50);
+        let base: Vec<u8> = if iccma { gen_iccma_text(&mut rng).0 } else { gen_apx_text(&mut rng).0 };
+        let mut texts = vec![base.clone()];
+        texts.push(corrupt(&mut rng, &base));
+        texts.push(gen_listed_illformed(&mut rng, iccma).0);
+        for t in texts {
+            let reference = if iccma { ref_parse_iccma(&t) } else { ref_parse_apx(&t) };
+            if reference == RefParse::TooBig {
+                continue;
+            }
+            inputs += 1;
+            match (run_reader(iccma, &t), reference) {
+                (ReadOutcome::Panic(m, s), _) => return Err(format!("C13/panic {} at {} on {:?}", m, s, String::from_utf8_lossy(&t))),
+                (ReadOutcome::Ok(n, a), RefParse::Ok(rn, ra)) => {
+                    let mut ra = ra;
+                    ra.sort();
+                    ra.dedup();
+                    if n != rn || a != ra {
+                        return Err(format!("C13/framework-differs on {:?}", String::from_utf8_lossy(&t)));
+                    }
+                }
+                (ReadOutcome::Err(e), RefParse::Ok(..)) => return Err(format!("C13/well-formed-rejected ({}) on {:?}", e, String::from_utf8_lossy(&t))),
+                (ReadOutcome::Ok(..), RefParse::Listed(c)) => return Err(format!("C13/ill-formed-accepted ({}) on {:?}", c, String::from_utf8_lossy(&t))),
+                _ => {}
+            }
+        }
+    }
+    Ok((ops_done, inputs))
 }
